@@ -173,6 +173,15 @@ CLAIMS = {
         'comprehensions). Two defects found (exception / pattern-capture names never reported; first-iterable names dropped under a filter) were repaired in /repo.',
    note='Trusted: Coq kernel/vm_compute; hand model Scope.v tied by correspondence; the encoder\'s outer/inner split per node class (the property\'s own list); CPython symtable. No axioms.',
    design='DESIGN.md section 4 C16'),
+ 'C18': dict(
+   technique='Coq proof: substitution on rose trees for any node predicate and templates with whole-match / child-capture slots: the flat substitution meets (and is determined by) the declarative replace-outermost-matches specification; whole-match template is the identity flat and nested; count = number of outermost matches; no match => unchanged; correspondence with FST.subn; pure-AST reference oracle over 16 scenarios',
+   text='Proved (closed): for every predicate, template and tree the modelled sub replaces exactly the outermost matching nodes by the filled template and leaves every non-matching node above them as it is, '
+        'uniquely; the whole-match template is the identity in both modes; the count equals the number of outermost matches; a tree without matches is returned unchanged. The nested model (replacement '
+        'root and template nodes never re-examined, captures below the root examined) is tied by correspondence. Partial: matcher, slice / quantifier captures, slot discovery, text preservation and '
+        'counts on real trees are decided by the oracle: FST.subn vs a pure-AST reference for 16 scenarios x flat/nested on corpus and generated programs (C01, structure, counts, comments outside '
+        'substituted nodes).',
+   note='Trusted: Coq kernel/vm_compute; hand model Subst.v tied by correspondence; FST.match for the set of matching nodes (C17); ast.unparse/parse to decide that a reference result is a program. No axioms.',
+   design='DESIGN.md section 4 C18'),
 }
 
 checks = []
